@@ -266,7 +266,9 @@ def classify(h, r):
                     return "undecided", "vacuity guard: only %d of %d covers satisfied" % (r["covers_sat"], r["covers_total"])
                 return "pass", ""
             return "violation", "expected the documented panic in %s but every check passed (the call returned)" % rx.pattern
-        bad = [c for c in fc if not rx.search("%s @ %s" % (c[0], c[3]))]
+        # a memory-safety-class / arithmetic-overflow failure is never "the documented panic",
+        # whatever function it sits in (debug would panic, release would wrap: seed C16-2)
+        bad = [c for c in fc if MEMCLASS_RE.search(c[0]) or not rx.search("%s @ %s" % (c[0], c[3]))]
         if bad:
             return "violation", "failure outside the documented panic site: " + "; ".join("%s @ %s:%d in %s" % c for c in bad[:6])
         return "pass", "only the documented panic fails (%d check[s] in %s)" % (len(fc), rx.pattern)
